@@ -167,6 +167,8 @@ VALUE_CLASSES = {
     'nonascii': '%E2%98%83', 'list': 'a,b,c', 'equals': 'x=y', 'isotime': '12:00:00Z', 'isodate': '2024-01-01T00:00:00Z',
     'bad_date': '2024-13-45T99:99:99Z', 'code_num': '404=5', 'code_time': '503=11:59:50Z', 'code_bad': '503=x', 'bool1': '1',
     'quote': '%22%3E%3Cx', 'space': 'a%20b', 'dup': None,
+    # the ends of the accepted integer range, and a value that moves a clock across the end of NTP era 0 (2036-02-07)
+    'int_min': '-2147483647', 'int_max': '2147483647', 'neg_decades': '-400000000',
 }
 
 
@@ -182,7 +184,8 @@ def robustness_grid(da, rng: random.Random, tier_: str, out: Outcome) -> list[di
         'media-vod': '/dash/vod/bbb/bbb_v7/3.m4v', 'media-enc': '/dash/vod/bbb/bbb_v7_enc/3.m4v',
         'init': '/dash/live/bbb/bbb_v7/init.m4v', 'init-enc': '/dash/vod/bbb/bbb_a1_enc/init.m4a',
         'patch': '/patch/bbb/hand_made.mpd/{publish}', 'player': '/play/live/bbb/hand_made.mpd/index.html',
-        'clearkey': '/clearkey', 'time': '/time/iso', 'tears-manifest': '/dash/live/tears/hand_made.mpd',
+        'clearkey': '/clearkey', 'time': '/time/iso', 'time-ntp': '/time/http-ntp', 'time-xsd': '/time/xsd', 'time-head': '/time/head',
+        'tears-manifest': '/dash/live/tears/hand_made.mpd',
         'tears-media': '/dash/vod/tears/tears_v1/2.m4v', 'noref-manifest': '/dash/live/noref/hand_made.mpd',
         'noref-media': '/dash/vod/noref/noref_v7/2.m4v', 'unindexed-manifest': '/dash/vod/unindexed/hand_made.mpd',
         'unindexed-media': '/dash/vod/unindexed/unindexed_t1/1.mp4', 'noaudio-manifest': '/dash/live/noaudio/manifest_a.mpd',
@@ -222,7 +225,7 @@ def robustness_grid(da, rng: random.Random, tier_: str, out: Outcome) -> list[di
         families = {
             'manifest': ['manifest-live', 'manifest-vod', 'manifest-n', 'mps-manifest', 'patch'],
             'media': ['media-num', 'media-vod', 'media-time', 'media-enc', 'init', 'init-enc'],
-            'time': ['time'],
+            'time': ['time', 'time-ntp', 'time-xsd', 'time-head'],
         }
         for name in names:
             u = usage_of.get(name, OptionUsage(0))
@@ -240,6 +243,9 @@ def robustness_grid(da, rng: random.Random, tier_: str, out: Outcome) -> list[di
                         # in-band events live in video segments; the static segment 3 always carries one
                         chosen.append(('media-vod', name, vc))
                         routes = ['media-num', 'media-enc']
+                    if fam == 'time':
+                        chosen.extend((rt, name, vc) for rt in routes)      # few options reach the clock: every encoding of it
+                        continue
                     chosen.append((rng.choice(routes), name, vc))
         combos = chosen
     capped: set[tuple[str, str | None]] = set()
@@ -521,7 +527,7 @@ def main(tier_: str) -> int:
             'exhaustive': False, 'model_drift': drift, 'injection_requests': ninj, 'probes': len(probes),
             'status_histogram': {str(k): sum(1 for x in probes if x['status'] == k) for k in sorted({x['status'] for x in probes})},
             'samples': [lines[1], probes[len(probes) // 2], probes[-1]],
-            'bounds': f'tier {tier_}; injection: 4 usages x 8 specifications x failure count absent/1/2, two clients; grid: 23 route/stream '
+            'bounds': f'tier {tier_}; injection: 4 usages x 8 specifications x failure count absent/1/2, two clients; grid: 26 route/stream '
                       f'classes x {out.coverage.get("registered_options")} option names x {len(VALUE_CLASSES)} value classes (pairwise-reduced in quick); '
                       'MP4: truncations at box boundaries +-1, size field edits, bit flips, size-0 last box; size edits of every nested box and dense truncations of 4 files through the parser (lazy + eager, every box touched)',
         })
